@@ -123,6 +123,8 @@ def run(c):
                 ops.append(dict(op=e["op"], cell=e["cell"], alg=e["alg"], bearer=e["bearer"], dir=e["dir"], keyb=e["key"], cntb=e["cnt"]))
         return evs, ops
 
+    cur = {}
+
     def classify(idx, t):
         e = json.loads(events[idx]); kind = t[4]
         if kind == "continuity":
@@ -143,11 +145,15 @@ def run(c):
         what = "%s alg=%d bearer=%d dir=%d payload %s: %s%s (history of %d operations)" % (
             op, e["alg"], e["bearer"], e["dir"], "nil" if e["nil"] else "%d octets" % len(e["before"]), kind,
             " in " + e["pfn"] if e["panic"] else "", len(ops))
-        return (op, cls, what, dict(history=ops, observed=e, how="harness/cmd/sec: sec hist [[history]] out.ndjson ; validate with spec/trace/Trace_C08"))
+        cur["obj"] = dict(history=ops, observed=e, how="harness/cmd/sec: sec hist [[history]] out.ndjson ; validate with spec/trace/Trace_C08")
+        return (op, cls, what, cur["obj"])
+
+    full = {}
 
     def confirm(idx, t):
         e = json.loads(events[idx])
         o = os.path.join(c.scratch, "confirm.ndjson")
+        # (1) the history alone, in a fresh process
         if e["op"] == "Cube":
             c.run_driver(drv, ["cube", e["call"], e["alg"], o])
         else:
@@ -157,7 +163,25 @@ def run(c):
         evs2 = read_ndjson(o)
         again = c.validate("Trace_C08", evs2, stateful=True, shards=1)
         c.cov["traces_validated_against_impl"] -= len(evs2)
-        return any(m[1][4] == t[4] for m in again)
+        if any(m[1][4] == t[4] for m in again):
+            return True
+        # (2) the keystream function is global: the observation may contradict an earlier history.  The complete run again, fresh processes.
+        if not full:
+            o1 = os.path.join(c.scratch, "hist2.ndjson"); o2 = os.path.join(c.scratch, "record2.ndjson")
+            c.run_driver(drv, ["hist", hp, o1]); c.run_driver(drv, ["record08", o2])
+            ev2 = read_ndjson(o1) + read_ndjson(o2)
+            if ev2 == events:
+                full["mism"] = {i for i, _ in mism}
+            else:
+                full["mism"] = {i for i, _ in c.validate("Trace_C08", ev2, stateful=True, shards=shards, timeout=3000)}
+                c.cov["traces_validated_against_impl"] -= len(ev2)
+        if idx in full["mism"]:
+            c.note("%s alg=%d: %s only in the context of the earlier histories of the run (the same parameter point gave another keystream before)" % (e["op"], e["alg"], t[4]))
+            if "obj" in cur:
+                cur["obj"]["how"] = ("contradicts an observation of the same parameter point in an earlier history: run the complete generated set "
+                                     "(bin/vcheck C08 with VERIF_KEEP=1 keeps hists.json; sec hist hists.json out.ndjson) and validate with spec/trace/Trace_C08")
+            return True
+        return False
     c.triage(mism, classify, confirm)
     # ---- coverage
     nh = 0
